@@ -28,6 +28,7 @@ type rnKeyspace struct {
 }
 
 type rnCase struct {
+	pl *placement // where the []byte / string values lie in memory (placed.go); nil: as built
 	proto   byte
 	kind    string // q | b
 	ks, tbl string // global table spec of the PREPARE answer
@@ -232,7 +233,7 @@ func (c *rnCase) run() string {
 			}()
 			vals := make([]interface{}, len(row))
 			for i, v := range row {
-				vals[i] = v.Build()
+				vals[i] = c.pl.value(i+1, v.Build())
 			}
 			if c.kind == "q" {
 				k, ks, tbl, ec := gocql.VerifC09QueryKey(s, rnStmt, vals)
